@@ -76,6 +76,11 @@ def hostile_selectors(rng, model: sites.SiteModel, full: bool, n: int, outside_a
                        # names that handlers claim by their suffix (decompression, archives, templates, maps)
                        b"outside-secret.txt.gz", b"SIBLING/secret.txt.gz", b"outside.zip", b"outside.zip/inner.txt", b"outside.html.tal",
                        b"outside.gophermap", b"outside-secret.txt.bz2"]
+    # tails that would continue the root's own path into a sibling whose name begins with the root's name
+    # ('<root>-x', '<root>x'): reachable only if some layer drops the leading '/' (or the first characters) of a selector
+    for tail in (b"-x/secret.txt", b"x/secret.txt", b"-x", b"x/small.txt"):
+        for lead in (b"", b"/", b"/0", b"/1", b"/a", b"/-", b"//", b"/./", b"/0/", b"/URL:"):
+            out.append((lead + tail, False, "root-prefix-sibling"))
     for _ in range(n):
         o = rng.choice(objs)
         k = rng.random()
